@@ -18,6 +18,7 @@ PROP = {
         san("tsan", "c07", scale=10),
         native("c07x", pkg="monx", name="files-e2e"),
         memcheck("c07x", name="memcheck-files-e2e", scale=3, timeout={"thorough": 3600}),
+        san("tsan", "c07x", pkg="monx", name="tsan-files-e2e", scale=10, timeout={"thorough": 3600}),
         script("strace", "c10-strace", tiers=T, args={"prop": "C07"}),
         native("c07o", pkg="monx", name="otlp-e2e", args={"prop": "C07"}),
     ],
